@@ -34,6 +34,8 @@ def rebuilds(ctx, f, n, depth=2) -> bool:
 def run(ctx):
     ctx.rule("R08.x", "context-manager model: _batch_call_watchers, batch_call_watchers, discard_events, _syncing and edit_constant interpreted abstractly with the body of the `with` supplied at the `yield` (62 cases: entry state x body ends normally / raises x nesting x queues replaced in the body x Parameter copies made in the body): flag, queues, syncing set and constant flags are, after the block, what they were before; the flush runs iff outermost, after the restore, also when the body raised", floor=1)
     ctx.rule("R08.r", "update-context exit: _ParametersRestorer.__exit__ interpreted abstractly (3 cases) assigns back every recorded previous value -- also one identical to the current value -- and every remembered reference in one update, and forgets the record, also when that update raises", floor=1)
+    ctx.rule("R08.b2", "bind model: the dependency extraction of param.bind, interpreted abstractly (generator expressions lazily, as Python does) on bind(f, N1, N2, P0, k1=N3, k2=P1) with nested references carrying positional and keyword dependencies: every dependency of every nested reference and every directly bound Parameter reaches depends(), each under its own key", floor=1)
+    ctx.rule("R08.h", "flush model (shared with R03.h/R04.h): a source watcher queued in an open batch runs at the flush with its events, also when it has meanwhile been unwatched (a relink of a sibling rebuilds every source watcher of the object): otherwise the links that did not change miss the update", floor=1)
     ctx.rule("R08.a", "every function that removes or replaces an entry of the refs map rebuilds the ref watchers on the same path "
                       "(_setup_refs, directly or via a callee); a rebuild outside the constructor first unwatches and resets ref_watchers", floor=3)
     ctx.rule("R08.b", "every resolve_ref/resolve_value call in class Parameters that computes a link's dependencies or value passes recursive=<that parameter>.nested_refs", floor=5)
@@ -311,6 +313,10 @@ def run(ctx):
     else:
         ctx.ok("R08.f", up, up.node, "%d call forms (keywords, dict, dict+keywords, pairs, pairs+keywords): the restorer receives the reference of every given linked parameter" % n_f)
 
+    from checks.shared import flush_model
+    flush_model(ctx, "R08.h")
+    from checks import bind_model
+    bind_model.report(ctx, "R08.b2")
     from checks.shared import restorer_model
     restorer_model(ctx, "R08.r")
     from checks.shared import syncing_set_replaced
